@@ -4,16 +4,16 @@ P="$1"; shift; EXTRA="$@"
 cd /verif
 for M in MUTANT_A MUTANT_B; do
   D=/tmp/wt-$P/$M
-  [ -f $D/patch.diff ] || { echo "$P $M MISSING" >> /tmp/mut_results.txt; continue; }
+  [ -f $D/patch.diff ] || { echo "$P $M MISSING" >> ${MUT_OUT:-/tmp/mut_results.txt}; continue; }
   C=$(./confirm_mut.sh /tmp/wt-$P $M 2>&1 | grep CONFIRM | tail -1)
   for Q in $P $EXTRA; do
     E=$(./evalmut.sh $D/patch.diff $Q 2>&1); RC=$(echo "$E" | grep -oE "EVAL prop=$Q rc=[0-9]+" | grep -oE "[0-9]+$")
     MON=$(echo "$E" | grep -oE "monitor=[A-Za-z0-9_.]+" | head -1)
     if [ "$RC" = "0" ]; then
       E=$(./evalmut.sh $D/patch.diff $Q 30000 2>&1); RC2=$(echo "$E" | grep -oE "EVAL prop=$Q rc=[0-9]+" | grep -oE "[0-9]+$"); MON=$(echo "$E" | grep -oE "monitor=[A-Za-z0-9_.]+" | head -1)
-      echo "$P $M check=$Q quick=missed big30000=rc$RC2 $MON | $C" >> /tmp/mut_results.txt
+      echo "$P $M check=$Q quick=missed big30000=rc$RC2 $MON | $C" >> ${MUT_OUT:-/tmp/mut_results.txt}
     else
-      echo "$P $M check=$Q quick=rc$RC $MON | $C" >> /tmp/mut_results.txt
+      echo "$P $M check=$Q quick=rc$RC $MON | $C" >> ${MUT_OUT:-/tmp/mut_results.txt}
     fi
   done
 done
